@@ -84,8 +84,14 @@ FinalStep(s) ==
   /\ (total = Inf \/ s.got = got) /\ s.prefix_ok = TRUE
   /\ UNCHANGED vars
 
+(* No lost wakeups: the block threads with a notification on offer in the   *)
+(* implementation are exactly the waiting threads the model has notified.   *)
+NotifiedAgree(s) ==
+  ("nf" \in DOMAIN s) =>
+     {b \in Blocks : notified[b] /\ PtOf(pc[b]) = "cvwait"} = {s.nf[i] : i \in 1 .. Len(s.nf)}
 TraceNext ==
   /\ l <= Len(Rec)
+  /\ (\/ Rec[l].pt = "config" \/ NotifiedAgree(Rec[l]))
   /\ LET s == Rec[l] IN
        \/ Config(s)
        \/ (FinalStep(s) /\ UNCHANGED sid)
